@@ -138,8 +138,7 @@ def r1_spill_table(ck, F, R="C08-R1"):
         ck.ob(R, "spill-error-propagated", len(brs) == 1, "write_chunk's error is propagated with `?`", b, wc[0][0])
 
 
-def r2_threshold(ck, F):
-    R = "C08-R2"
+def r2_threshold(ck, F, R="C08-R2"):
     te = F.body(A("sorter_threshold"))
     e = te.expr_at_return()
     ok = e.k == "bin" and e.x["op"] == "Ge" and is_call(e.a[0], A("entries_memory")) and is_self_field(e.a[0].strip().a[0], "entries") and is_self_field(e.a[1], "dump_threshold")
@@ -189,8 +188,7 @@ def r2_threshold(ck, F):
         ck.ob(R, "initial-capacity", ok and okf, f"capacity = {cap.show()} (INITIAL_SORTER_VEC_SIZE when reallocation is allowed, else the whole budget)", bld, s)
 
 
-def r3_grow(ck, F):
-    R = "C08-R3"
+def r3_grow(ck, F, R="C08-R3"):
     ent = A("entries_struct")
     st = field_stores(F, ent, "buffer")
     ck.ob(R, "buffer-writers", [b.path for b, s, x in st] == [A("entries_realloc")], f"Entries.buffer is reassigned only in reallocate_buffer ({[b.path for b, s, x in st]})", config=F.config)
